@@ -107,7 +107,18 @@ func Evaluate(s sink.Sink, prop string, r *scen.Run, completed, sample bool) {
 		s.Count("scenarios_with_sub_channel", 1)
 	}
 	evaluated := false
+	// Two honest clients, a reliable bus: at quiescence every update request that was handed to a
+	// client must have been answered (accepted or rejected). A request dropped without an answer
+	// makes the life cycle the statement is about impossible (the wall clock plays no role here:
+	// the verdict is taken from the recorded messages once everything is at rest).
+	if idle := r.WaitIdle(); idle {
+		if un := r.Unanswered(); len(un) > 0 {
+			problems = append(problems, fmt.Sprintf("honest update request never answered (dropped by the receiving client): %s", strings.Join(un, "; ")))
+		}
+	}
 	switch {
+	case len(problems) > 0 && strings.Contains(problems[0], "never answered"):
+		// reported below
 	case r.TimedOut:
 		s.Inconclusive("a request timed out")
 	case !completed:
@@ -175,6 +186,8 @@ func Evaluate(s sink.Sink, prop string, r *scen.Run, completed, sample bool) {
 	if len(problems) > 0 {
 		class := "payout"
 		switch {
+		case strings.Contains(problems[0], "never answered"):
+			class = "honest-request-never-answered"
 		case strings.Contains(problems[0], "refused"):
 			class = "honest-call-refused"
 		case strings.Contains(problems[0], "funding took"):
